@@ -497,6 +497,66 @@ func c11(r *engine.Run) {
 		}
 	}
 
+	// --- position of the locked input: every assignment of {ordinary, unlocked distribution, locked distribution, locked #2}
+	// to the inputs of transactions with 1..4 inputs; the transaction is locked exactly when SOME input is owned by a locked address
+	{
+		third := fixKeys[3].Addr
+		ordinary, unlockedA, lockedA := fixKeys[0].Addr, fixKeys[1].Addr, fixKeys[2].Addr
+		dist := params.Distribution{MaxCoinSupply: 180, InitialUnlockedCount: 1, UnlockAddressRate: 5, UnlockTimeInterval: 31536000,
+			Addresses: []string{unlockedA.String(), lockedA.String(), third.String()}}
+		ownersP := []struct {
+			name   string
+			a      cipher.Address
+			locked bool
+		}{{"ordinary", ordinary, false}, {"unlocked-distribution", unlockedA, false}, {"locked-distribution", lockedA, true}, {"locked-distribution-2", third, true}}
+		vp := params.VerifyTxn{BurnFactor: 2, MaxTransactionSize: 32768, MaxDropletPrecision: 3}
+		for n := 1; n <= 4; n++ {
+			total := 1
+			for i := 0; i < n; i++ {
+				total *= len(ownersP)
+			}
+			for code := 0; code < total; code++ {
+				var uxs coin.UxArray
+				var t coin.Transaction
+				var names []string
+				wantLocked := false
+				c := code
+				for i := 0; i < n; i++ {
+					o := ownersP[c%len(ownersP)]
+					c /= len(ownersP)
+					ux := coin.UxOut{Head: coin.UxHead{Time: c11T0, BkSeq: 3}, Body: coin.UxBody{SrcTransaction: cipher.SumSHA256([]byte(fmt.Sprintf("pos-%d-%d-%d", n, code, i))), Address: o.a, Coins: 2e6, Hours: 1000}}
+					uxs = append(uxs, ux)
+					t.In = append(t.In, ux.Hash())
+					names = append(names, o.name)
+					wantLocked = wantLocked || o.locked
+				}
+				t.Sigs = make([]cipher.Sig, n)
+				t.Out = []coin.TransactionOutput{{Address: ordinary, Coins: uint64(n) * 2e6, Hours: 100}}
+				if err := t.UpdateHeader(); err != nil {
+					r.Broken("fixture txn: %v", err)
+				}
+				var err error
+				pan, msg := engine.Catch(func() { err = transaction.VerifySingleTxnSoftConstraints(t, c11T0, uxs, dist, vp) })
+				atomic.AddInt64(&evals, 1)
+				cs := map[string]interface{}{"input_owners": names, "some_input_locked": wantLocked}
+				if pan {
+					r.Failf("VerifySingleTxnSoftConstraints:panic:locked-input-position", cs, "panic %s", msg)
+					continue
+				}
+				if wantLocked {
+					outcomes.Add("position:locked-rejected")
+					atomic.AddInt64(&nontrivial, 1)
+				} else {
+					outcomes.Add("position:accepted")
+				}
+				if (err != nil) != wantLocked {
+					r.Failf("VerifySingleTxnSoftConstraints:locked-rule-depends-on-the-position-of-the-locked-input", cs,
+						"inputs owned by %v: some input locked=%v, verdict %v", names, wantLocked, err)
+				}
+			}
+		}
+	}
+
 	r.Finish(engine.Coverage{
 		"evaluations":          evals + hardEvals + friendEvals,
 		"soft_evaluations":     evals,
